@@ -56,10 +56,11 @@ pub struct Scenario {
     pub log: Vec<String>,               // human-readable op log for the sidecar
     pub covs: HashMap<Address, CovInfo>,
     pub keys: Keys,
-    pub violates: BTreeMap<String, String>,
-    pub class: Vec<String>,
+    pub violates: Vec<(usize, String, String)>,      // (step, property, what)
+    pub class: Vec<(usize, String)>,                 // (step, known-finding class)
     pub counters: BTreeMap<String, u64>,
     pub unknown_keys: Vec<String>,
+    pub fixed_change: Option<Address>,
 }
 
 fn std_cov(kind: &CovKind, keys: &Keys) -> Vec<u8> {
@@ -79,6 +80,8 @@ fn std_cov(kind: &CovKind, keys: &Keys) -> Vec<u8> {
 }
 
 impl Scenario {
+    pub fn viol(&mut self, prop: &str, what: String) { let st = self.steps.len(); self.violates.push((st, prop.to_string(), what)); }
+    pub fn tag(&mut self, class: &str) { let st = self.steps.len(); self.class.push((st, class.to_string())); }
     pub fn bump(&mut self, k: &str) { *self.counters.entry(k.to_string()).or_insert(0) += 1; }
 
     pub fn new(name: &str, r: &mut Rng, net: NetID, mult: u128, fee_pool: u128) -> Scenario {
@@ -109,7 +112,7 @@ impl Scenario {
         let mut sc = Scenario { db, mode: Mode::U(st), dict: Dict::default(),
             tables: Tables { hashes: vec![], sigs: vec![], reward: BTreeMap::new(), marker: BTreeMap::new(), hdr: vec![], melpow: vec![], ed: vec![] },
             proofs: Proofs { table: vec![] }, defs: vec![], txnames: HashMap::new(), name: name.to_string(), init: String::new(), steps: vec![], log: vec![],
-            covs, keys, violates: BTreeMap::new(), class: vec![], counters: BTreeMap::new(), unknown_keys: vec![] };
+            covs, keys, violates: vec![], class: vec![], counters: BTreeMap::new(), unknown_keys: vec![], fixed_change: None };
         sc.dict.coin(CoinID::zero_zero());
         let covh: Vec<Address> = sc.covs.keys().cloned().collect();
         for a in covh { sc.dict.cov(a); }
@@ -120,6 +123,12 @@ impl Scenario {
         let d = sc.dump_now();
         sc.init = sc.dump_str(&d);
         sc
+    }
+
+    /// known-finding class of a panic, from its message (the panic site)
+    pub fn classify_panic(&mut self, m: &str) {
+        if m.contains("denominator == 0") || m.contains("division by zero") || m.contains("divide by zero") { self.tag("F5"); self.tag("F6"); }
+        if m.contains("self.liqs >= liqs") { self.tag("F7"); }
     }
 
     pub fn ustate(&self) -> &St { match &self.mode { Mode::U(u) => u, Mode::S(s) => s.verif_inner() } }
@@ -213,6 +222,33 @@ impl Scenario {
         }
     }
 
+    /// MelPoW oracle: what Proof::verify answers (or that it panics) for every DoscMint of the batch, in the
+    /// context the implementation will use (seed = header at the spent coin's height, the coin id, the difficulty)
+    fn collect_melpow(&mut self, u: &St, txs: &[Transaction]) {
+        let height = u.verif_height();
+        let coins = melstf::CoinMapping::new(u.verif_coins());
+        let hist = melstf::SmtMapping::<InMemoryCas, BlockHeight, Header>::new(u.verif_history());
+        let mut produced: HashMap<CoinID, CoinDataHeight> = HashMap::new();
+        for t in txs { let h = t.hash_nosigs(); for (i, o) in t.outputs.iter().enumerate().take(256) { produced.insert(CoinID::new(h, i as u8), CoinDataHeight { coin_data: o.clone(), height }); } }
+        for t in txs.iter().filter(|t| t.kind == TxKind::DoscMint) {
+            let cid = match t.inputs.get(0) { Some(c) => *c, None => continue };
+            let cdh = match produced.get(&cid).cloned().or_else(|| coins.get_coin(cid)) { Some(c) => c, None => continue };
+            let seed = match hist.get(&cdh.height) { Some(h) => h, None => continue };
+            self.note_header(&seed);
+            let (difficulty, pb): (u32, Vec<u8>) = match stdcode::deserialize(&t.data) { Ok(x) => x, Err(_) => continue };
+            let proof = match melpow::Proof::from_bytes(&pb) { Some(p) => p, None => continue };
+            let pid = self.proofs.id(&pb);
+            let puzzle = tmelcrypt::hash_keyed(seed.hash(), &stdcode::serialize(&cid).unwrap());
+            let p2 = proof.clone();
+            let v = catch_unwind(AssertUnwindSafe(|| {
+                if p2.verify(&puzzle, difficulty as usize, melstf::LegacyMelPowHash) { 1 }
+                else if p2.verify(&puzzle, difficulty as usize, melstf::Tip910MelPowHash) { 2 } else { 0 }
+            })).unwrap_or(3);
+            let key = (pid, seed.hash(), cid, difficulty);
+            if !self.tables.melpow.iter().any(|(k, _)| *k == key) { self.tables.melpow.push((key, v)); }
+        }
+    }
+
     fn last_header(&self) -> Option<Header> {
         let u = self.ustate();
         let h = u.verif_height().0;
@@ -230,6 +266,7 @@ impl Scenario {
         let at0 = melstf::SmtMapping::<InMemoryCas, BlockHeight, Header>::new(u.verif_history()).get(&BlockHeight(u.verif_height().0.saturating_sub(1))).is_none();
         let r0 = match (&lh, at0) { (Some(h), true) => roots_of(h), _ => roots_zero() };
         if let Some(h) = &lh { self.note_header(h); self.collect_vm_oracles(txs, h); }
+        self.collect_melpow(&u, txs);
         let before = u.verif_coins().root_hash();
         let mut work = u.clone();
         let res = catch_unwind(AssertUnwindSafe(|| { let r = work.apply_tx_batch(txs); (r, work) }));
@@ -237,14 +274,80 @@ impl Scenario {
             Ok((Ok(()), w)) => { self.mode = Mode::U(w); 0 }
             Ok((Err(e), w)) => {
                 if w.verif_coins().root_hash() != before || w.verif_transactions().len() != u.verif_transactions().len() {
-                    self.violates.insert("C02".into(), format!("rejected batch changed the state (step {})", self.steps.len()));
+                    self.viol("C02", "rejected batch changed the state".into());
                 }
                 err_code(&e)
             }
-            Err(p) => { self.violates.insert("C09".into(), format!("apply_tx_batch panicked at step {}: {}", self.steps.len(), crate::panic_msg(&p))); 100 }
+            Err(p) => { let m = crate::panic_msg(&p); self.classify_panic(&m); self.viol("C09", format!("apply_tx_batch panicked: {}", m)); 100 }
         };
+        self.check_order_independence(&u, txs, code);
         self.push_step(format!("OpBatch {} {}", names, r0), code, &format!("batch[{}]", txs.iter().map(|t| kind(t.kind)).collect::<Vec<_>>().join(",")));
         code
+    }
+
+    fn fingerprint(w: &St) -> (HashVal, HashVal, u128, u128, u128, u128, HashVal, usize) {
+        (HashVal(w.verif_coins().root_hash()), HashVal(w.verif_pools().root_hash()), w.verif_fee_pool().0, w.verif_tips().0, w.verif_dosc_speed(),
+         w.verif_fee_multiplier(), HashVal(w.verif_stakes().pre_tip911().root_hash()), w.verif_transactions().len())
+    }
+
+    /// C03: every permutation (<= 4 txs; 6 rotations/reversals above), rayon pools of 1 and 3 threads, and
+    /// one-at-a-time application in dependency order must agree with the batch as presented
+    fn check_order_independence(&mut self, u: &St, txs: &[Transaction], code: u32) {
+        if txs.len() < 2 || code == 100 { return; }
+        let hashes: HashSet<TxHash> = txs.iter().map(|t| t.hash_nosigs()).collect();
+        let dependent = txs.iter().any(|t| t.inputs.iter().any(|i| hashes.contains(&i.txhash)));
+        let run = |order: &[Transaction]| -> Option<Result<(HashVal, HashVal, u128, u128, u128, u128, HashVal, usize), u32>> {
+            let mut w = u.clone();
+            catch_unwind(AssertUnwindSafe(|| match w.apply_tx_batch(order) { Ok(()) => Ok(Self::fingerprint(&w)), Err(e) => Err(err_code(&e)) })).ok()
+        };
+        let base = match run(txs) { Some(b) => b, None => return };
+        let mut orders: Vec<Vec<Transaction>> = vec![];
+        if txs.len() <= 4 {
+            let n = txs.len();
+            let mut idx: Vec<usize> = (0..n).collect();
+            // Heap's algorithm, iterative
+            let mut c = vec![0usize; n];
+            orders.push(idx.iter().map(|i| txs[*i].clone()).collect());
+            let mut i = 0;
+            while i < n {
+                if c[i] < i { if i % 2 == 0 { idx.swap(0, i); } else { idx.swap(c[i], i); } orders.push(idx.iter().map(|k| txs[*k].clone()).collect()); c[i] += 1; i = 0; } else { c[i] = 0; i += 1; }
+            }
+        } else {
+            let mut v = txs.to_vec(); v.reverse(); orders.push(v);
+            for k in 1..4 { let mut v = txs.to_vec(); v.rotate_left(k); orders.push(v); }
+        }
+        self.bump("c03_batches_permuted");
+        for o in &orders {
+            self.bump("c03_permutations");
+            if let Some(r) = run(o) {
+                let same = match (&base, &r) { (Ok(a), Ok(b)) => a == b, (Err(_), Err(_)) => true, _ => false };
+                if !same { if dependent { self.tag("F2"); } self.viol("C03", format!("a permutation of the batch gives {:?} instead of {:?}", r.as_ref().map(|_| "accepted").map_err(|e| *e), base.as_ref().map(|_| "accepted").map_err(|e| *e))); break; }
+            }
+        }
+        for threads in [1usize, 3] {
+            let pool = rayon::ThreadPoolBuilder::new().num_threads(threads).build().unwrap();
+            if let Some(r) = pool.install(|| run(txs)) {
+                let same = match (&base, &r) { (Ok(a), Ok(b)) => a == b, (Err(_), Err(_)) => true, _ => false };
+                if !same { self.viol("C03", format!("result depends on the rayon pool size ({} threads)", threads)); }
+            }
+        }
+        // sequential application in an order where creators precede spenders
+        if base.is_ok() {
+            let mut remaining: Vec<Transaction> = txs.to_vec();
+            let mut done: HashSet<TxHash> = HashSet::new();
+            let mut w = u.clone();
+            let mut ok = true;
+            while !remaining.is_empty() && ok {
+                let pos = remaining.iter().position(|t| t.inputs.iter().all(|i| !hashes.contains(&i.txhash) || done.contains(&i.txhash)));
+                match pos {
+                    None => { ok = false; }
+                    Some(p) => { let t = remaining.remove(p); done.insert(t.hash_nosigs());
+                        match catch_unwind(AssertUnwindSafe(|| { let r = w.apply_tx(&t); (r, w) })) { Ok((Ok(()), w2)) => { w = w2; } Ok((Err(_), w2)) => { w = w2; ok = false; } Err(_) => { return; } } }
+                }
+            }
+            let dup = txs.len() != hashes.len();
+            if !dup && (!ok || Ok(Self::fingerprint(&w)) != base) { if dependent { self.tag("F2"); } self.viol("C03", "one-at-a-time application in dependency order differs from the batch".into()); }
+        }
     }
 
     pub fn op_seal(&mut self, a: Option<ProposerAction>) -> u32 {
@@ -259,17 +362,73 @@ impl Scenario {
         let res = catch_unwind(AssertUnwindSafe(move || { let s = u.seal(a); let hd = s.header(); (s, hd) }));
         match res {
             Ok((s, hd)) => {
+                self.check_commitments(&s, &hd);
                 self.mode = Mode::S(s);
                 self.note_header(&hd);
                 self.push_step(format!("OpSeal {} {} (Some {})", action(&a), roots_of(&hd), header(&hd)), 0, &format!("seal({})", a.map(|x| x.fee_multiplier_delta.to_string()).unwrap_or("-".into())));
                 0
             }
             Err(p) => {
-                self.violates.insert("C09".into(), format!("seal panicked at step {}: {}", self.steps.len(), crate::panic_msg(&p)));
+                { let m = crate::panic_msg(&p); self.classify_panic(&m); self.viol("C09", format!("seal panicked: {}", m)); }
                 self.push_step(format!("OpSeal {} {} None", action(&a), roots_zero()), 100, "seal(panic)");
                 100
             }
         }
+    }
+
+    /// C07: linkage of the header and Merkle (non-)membership proofs of every entry against the header roots
+    fn check_commitments(&mut self, s: &SealedState<InMemoryCas>, hd: &Header) {
+        let inner = s.verif_inner();
+        let h = inner.verif_height().0;
+        let mut bad: Vec<String> = vec![];
+        if hd.height.0 != h || hd.network != inner.verif_network() { bad.push("header height/network".into()); }
+        if h > 0 {
+            match s.history(BlockHeight(h - 1)) {
+                Some(p) => { if hd.previous != p.hash() || p.height.0 + 1 != h || p.network != hd.network { bad.push("previous-hash / parent height / network linkage".into()); } }
+                None => bad.push("parent header missing from history".into()),
+            }
+        }
+        for (name, tree, root) in [("coins", s.raw_coins_smt(), hd.coins_hash), ("pools", s.raw_pools_smt(), hd.pools_hash), ("history", s.raw_history_smt(), hd.history_hash)] {
+            if HashVal(tree.root_hash()) != root { bad.push(format!("{} root differs from the header", name)); }
+            let entries: Vec<([u8; 32], Vec<u8>)> = tree.iter().map(|(k, v)| (k, v.to_vec())).collect();
+            for (k, v) in entries.iter().take(40) {
+                let (val, proof) = tree.get_with_proof(*k);
+                if val.as_ref() != &v[..] || !proof.verify(root.0, *k, v) { bad.push(format!("{}: membership proof fails", name)); break; }
+                let mut wrong = v.clone(); wrong.push(1);
+                if proof.verify(root.0, *k, &wrong) { bad.push(format!("{}: proof verifies a wrong value", name)); break; }
+            }
+            let absent = tmelcrypt::hash_single(&[name.as_bytes(), &h.to_be_bytes()[..]].concat()).0;
+            let (val, proof) = tree.get_with_proof(absent);
+            if !val.is_empty() || !proof.verify(root.0, absent, b"") { bad.push(format!("{}: absence proof fails", name)); }
+            // history independence: the same contents inserted in another order (with a detour) give the same root
+            let db2 = Database::new(InMemoryCas::default());
+            let mut t2 = db2.get_tree([0u8; 32]).unwrap();
+            for (k, v) in entries.iter().rev() { t2.insert(*k, b"detour"); t2.insert(*k, v); }
+            t2.insert(absent, b"x"); t2.insert(absent, b"");
+            if t2.root_hash() != tree.root_hash() { bad.push(format!("{}: root depends on the insertion order", name)); }
+        }
+        // transactions commitment
+        let txs: Vec<Transaction> = s.transactions().cloned().collect();
+        let tip908 = inner.verif_network() == NetID::Custom08;
+        if tip908 {
+            let mut leaves: Vec<Vec<u8>> = txs.iter().map(|t| { let mut v = t.hash_nosigs().0 .0.to_vec(); v.extend_from_slice(&t.stdcode().hash().0); v }).collect();
+            leaves.sort_unstable();
+            let dense = novasmt::dense::DenseMerkleTree::new(&leaves);
+            if HashVal(dense.root_hash()) != hd.transactions_hash { bad.push("TIP-908 transactions root".into()); }
+            for (i, t) in txs.iter().enumerate() {
+                if s.transaction_sorted_posn(t.hash_nosigs()) != Some(i) { bad.push("transaction_sorted_posn".into()); break; }
+                if !novasmt::dense::verify_dense(&dense.proof(i), hd.transactions_hash.0, i, novasmt::hash_data(&leaves[i])) { bad.push("dense proof of a transaction fails".into()); break; }
+            }
+        } else {
+            let db2 = Database::new(InMemoryCas::default());
+            let mut smt = melstf::SmtMapping::<InMemoryCas, TxHash, Transaction>::new(db2.get_tree([0u8; 32]).unwrap());
+            for t in txs.iter().rev() { smt.insert(t.hash_nosigs(), t.clone()); }
+            if smt.root_hash() != hd.transactions_hash { bad.push("transactions root".into()); }
+            for t in txs.iter().take(10) { let (v, p) = smt.get_with_proof(&t.hash_nosigs()); if v.as_ref() != Some(t) || !p.verify(hd.transactions_hash.0, tmelcrypt::hash_single(&stdcode::serialize(&t.hash_nosigs()).unwrap()).0, &t.stdcode()) { bad.push("transaction membership proof".into()); break; } }
+        }
+        if HashVal(s.raw_stakes().pre_tip911().root_hash()) != hd.stakes_hash { bad.push("stakes root".into()); }
+        self.bump("c07_states_checked");
+        for b in bad { self.viol("C07", b); }
     }
 
     pub fn op_next(&mut self) {
@@ -287,6 +446,19 @@ impl Scenario {
         let txs: Vec<Transaction> = blk.transactions.iter().cloned().collect();
         let names = self.txlist(&txs);
         let restored = SealedState::from_block(&blk, &s.raw_stakes(), &self.db);
+        // C08: both lineages must behave identically from here on
+        let tips = s.verif_inner().verif_tips().0;
+        let dest = Address(tmelcrypt::hash_single(b"c08"));
+        let cont = |st: &SealedState<InMemoryCas>| catch_unwind(AssertUnwindSafe(|| {
+            let h0 = st.header();
+            let u = st.next_unsealed();
+            let h1 = u.clone().seal(Some(ProposerAction { fee_multiplier_delta: 3, reward_dest: dest })).header();
+            let h2 = u.seal(None).next_unsealed().seal(Some(ProposerAction { fee_multiplier_delta: -3, reward_dest: dest })).header();
+            (h0, h1, h2)
+        })).ok();
+        let (a, b) = (cont(&s), cont(&restored));
+        self.bump("c08_restarts_compared");
+        if a != b { if tips > 0 { self.tag("F16"); } self.viol("C08", format!("restored state diverges from the original (tips at restart = {})", tips)); }
         self.mode = Mode::S(restored);
         self.push_step(format!("OpRestart {} {}", header(&blk.header), names), 0, "restart");
     }
@@ -307,7 +479,7 @@ impl Scenario {
         let pstr = cf::list(&plist, |(k, v)| format!("({}, {})", U256::from_be_bytes(k.0), cf::bytes(v)));
         match res {
             Ok(b) => self.push_step(format!("OpConfirm {} {} {}", hn(&hh), pstr, b), 0, &format!("confirm={}", b)),
-            Err(p) => { self.violates.insert("C09".into(), format!("confirm panicked: {}", crate::panic_msg(&p))); self.push_step("OpJump".into(), 100, "confirm(panic)") }
+            Err(p) => { self.viol("C09", format!("confirm panicked: {}", crate::panic_msg(&p))); self.push_step("OpJump".into(), 100, "confirm(panic)") }
         }
     }
 
@@ -365,13 +537,12 @@ impl Scenario {
         let code = match res {
             Ok(Ok(s)) => { self.note_header(&s.header()); self.mode = Mode::S(s); 0 }
             Ok(Err(e)) => err_code(&e),
-            Err(p) => { self.violates.insert("C09".into(), format!("apply_block panicked: {}", crate::panic_msg(&p))); 100 }
+            Err(p) => { let m = crate::panic_msg(&p); self.classify_panic(&m); self.viol("C09", format!("apply_block panicked: {}", m)); 100 }
         };
-        if mutate == 0 && code != 0 { self.violates.insert("C06".into(), format!("honest block rejected with {}", code)); }
+        if mutate == 0 && code != 0 { self.viol("C06", format!("honest block rejected with {}", code)); }
         if mutate != 0 && code == 0 && !what.contains("(none)") && what != "honest" {
-            let cls = if what == "delta" { "F17" } else { "" };
-            if !cls.is_empty() { self.class.push(cls.into()); }
-            self.violates.insert("C06".into(), format!("block with mutated {} accepted", what));
+            if what == "delta" { self.tag("F17"); }
+            self.viol("C06", format!("block with mutated {} accepted", what));
         }
         self.push_step(format!("OpApplyBlock {} {} {} {} {}", header(&ph), header(&blk.header), names, action(&blk.proposer_action), rr), code, &format!("apply_block({})", what));
         code
@@ -397,12 +568,17 @@ impl Scenario {
     }
 
     pub fn meta(&self) -> String {
-        let viol: Vec<String> = self.violates.iter().map(|(k, v)| format!("{:?}:{:?}", k, v)).collect();
+        let mut vm: BTreeMap<String, String> = BTreeMap::new();
+        for (st, p, w) in &self.violates { vm.entry(p.clone()).or_insert(format!("step {}: {}", st, w)); }
+        let viol: Vec<String> = vm.iter().map(|(k, v)| format!("{:?}:{:?}", k, v)).collect();
+        let sv: Vec<String> = self.violates.iter().map(|(st, p, w)| format!("[{},{:?},{:?}]", st, p, w)).collect();
+        let sc: Vec<String> = self.class.iter().map(|(st, c)| format!("[{},{:?}]", st, c)).collect();
         let cnt: Vec<String> = self.counters.iter().map(|(k, v)| format!("{:?}:{}", k, v)).collect();
         let accepted = self.counters.get("code_0").copied().unwrap_or(0);
         let rejected: u64 = self.counters.iter().filter(|(k, _)| k.starts_with("code_") && *k != "code_0").map(|(_, v)| *v).sum();
-        format!("{{\"scenario\":{:?},\"ops\":{:?},\"counters\":{{{}}},\"violates\":{{{}}},\"class\":[{}],\"nontrivial\":{},\"unknown_keys\":{:?}}}",
-            self.name, self.log, cnt.join(","), viol.join(","), self.class.iter().map(|c| format!("{:?}", c)).collect::<Vec<_>>().join(","),
+        let mut classes: Vec<String> = self.class.iter().map(|(_, c)| format!("{:?}", c)).collect(); classes.sort(); classes.dedup();
+        format!("{{\"scenario\":{:?},\"ops\":{:?},\"counters\":{{{}}},\"violates\":{{{}}},\"step_violations\":[{}],\"step_classes\":[{}],\"class\":[{}],\"nontrivial\":{},\"unknown_keys\":{:?}}}",
+            self.name, self.log, cnt.join(","), viol.join(","), sv.join(","), sc.join(","), classes.join(","),
             accepted > 2 && rejected > 0, self.unknown_keys.iter().take(3).collect::<Vec<_>>())
     }
 }
@@ -443,7 +619,7 @@ impl Scenario {
         let out_mel: u128 = t.outputs.iter().filter(|o| o.denom == Denom::Mel).map(|o| o.value.0).sum();
         // placeholder signatures so that the serialized length is final
         t.sigs = inputs.iter().map(|_| Bytes::from(vec![0u8; 64])).collect();
-        let change_addr = self.my_addr(r, true);
+        let change_addr = match self.fixed_change { Some(a) => a, None => self.my_addr(r, true) };
         let mut fee;
         if t.kind != TxKind::Faucet && in_mel > out_mel {
             t.outputs.push(CoinData { covhash: change_addr, value: CoinValue(0), denom: Denom::Mel, additional_data: Bytes::new() });
@@ -774,12 +950,24 @@ pub fn run(tier: &str, seed: u64, em: &mut Emitter) {
     let mut k = 0;
     let flush = |em: &mut Emitter, k: usize, defs: &mut Vec<String>, names: &mut Vec<String>, metas: &mut Vec<String>| {
         if names.is_empty() { return; }
-        let mut s = String::from("From MelVerif Require Import Cases.StfLib.\nOpen Scope N_scope.\n");
+        let mut s = String::from("From MelVerif Require Import Cases.Reflect.\nOpen Scope N_scope.\n");
         s.push_str(&defs.join("\n"));
         s.push_str(&format!("\nEval vm_compute in (run_scenarios 0 [{}]).\n", names.join("; ")));
+        s.push_str(&format!("Eval vm_compute in (reflect_scenarios 0 [{}]).\n", names.join("; ")));
         em.raw_file(&format!("stf_{:03}", k), &s, metas.clone());
         defs.clear(); names.clear(); metas.clear();
     };
+    let mut rd = r.fork();
+    for mut sc in directed(&mut rd) {
+        for (c, v) in &sc.counters { st.add(c, *v); }
+        st.add("steps", sc.steps.len() as u64);
+        st.bump("directed_scenarios");
+        file_defs.push(sc.coq());
+        file_names.push(sc.name.clone());
+        file_meta.push(sc.meta());
+        if file_names.len() == per_file { flush(em, k, &mut file_defs, &mut file_names, &mut file_meta); k += 1; }
+    }
+    flush(em, k, &mut file_defs, &mut file_names, &mut file_meta); k += 1;
     for i in 0..n {
         let mut rr = r.fork();
         let name = format!("sc{}", i);
@@ -796,4 +984,231 @@ pub fn run(tier: &str, seed: u64, em: &mut Emitter) {
     }
     flush(em, k, &mut file_defs, &mut file_names, &mut file_meta);
     em.stats("stf", st);
+}
+
+// ---------------------------------------------------------------- directed scenarios (regression corpus: runs first)
+impl Scenario {
+    fn at(&self) -> Address { *self.covs.iter().find(|(_, c)| matches!(c.kind, CovKind::AlwaysTrue)).unwrap().0 }
+    fn addr_of(&self, f: impl Fn(&CovKind) -> bool) -> Address { *self.covs.iter().find(|(_, c)| f(&c.kind)).unwrap().0 }
+    fn coin_of(&mut self, d: Denom, min: u128) -> Option<(CoinID, CoinDataHeight)> {
+        let at = self.at();
+        self.wallet().coins.into_iter().filter(|(_, c)| c.coin_data.denom == d && c.coin_data.covhash == at && c.coin_data.value.0 >= min).max_by_key(|(_, c)| c.coin_data.value.0)
+    }
+    fn cd(&self, a: Address, v: u128, d: Denom) -> CoinData { CoinData { covhash: a, value: CoinValue(v), denom: d, additional_data: Bytes::new() } }
+    /// faucet paying the listed (value, denom) coins to the always-true address
+    fn fund(&mut self, r: &mut Rng, coins: &[(u128, Denom)]) -> Transaction {
+        let mut t = Transaction::new(TxKind::Faucet);
+        let at = self.at();
+        for (v, d) in coins { t.outputs.push(self.cd(at, *v, *d)); }
+        t.data = Bytes::from(r.bytes(6));
+        self.finish_tx(r, t, &[], 0, 0)
+    }
+    fn mk(&mut self, r: &mut Rng, kind: TxKind, inputs: &[(CoinID, CoinDataHeight)], outputs: Vec<CoinData>, data: Vec<u8>) -> Transaction {
+        let mut t = Transaction::new(kind);
+        t.outputs = outputs;
+        t.data = Bytes::from(data);
+        self.finish_tx(r, t, inputs, 0, 0)
+    }
+    fn block_end(&mut self, a: Option<ProposerAction>) -> bool { if self.op_seal(a) != 0 { return false; } self.op_next(); true }
+}
+
+fn base(name: &str, r: &mut Rng, net: NetID, mult: u128) -> Scenario {
+    let mut sc = Scenario::new(name, r, net, mult, 1 << 20);
+    sc.fixed_change = Some(sc.at());
+    let f = sc.fund(r, &[(1 << 50, Denom::Mel), (1 << 50, Denom::Mel), (1 << 50, Denom::Mel), (1 << 40, Denom::Sym), (1 << 40, Denom::Erg)]);
+    if net != NetID::Mainnet { sc.op_batch(&[f]); }
+    sc
+}
+
+pub fn directed(r: &mut Rng) -> Vec<Scenario> {
+    let mut out = vec![];
+    let act = |sc: &Scenario, d: i8| Some(ProposerAction { fee_multiplier_delta: d, reward_dest: sc.at() });
+    // F3: a Normal transaction and a LiqDeposit whose data names a pool
+    {
+        let mut sc = base("d_f3", r, NetID::Custom02, 1000);
+        sc.block_end(None);
+        let m = sc.coin_of(Denom::Mel, 1 << 40).unwrap();
+        let at = sc.at();
+        let t = sc.mk(r, TxKind::Normal, &[m], vec![sc.cd(at, 1 << 30, Denom::Mel)], b"s".to_vec());
+        sc.op_batch(&[t]);
+        sc.block_end(None);
+        let m = sc.coin_of(Denom::Mel, 1 << 40).unwrap();
+        let s = sc.coin_of(Denom::Sym, 1 << 30).unwrap();
+        let t = sc.mk(r, TxKind::LiqDeposit, &[m, s.clone()], vec![sc.cd(at, 1 << 30, Denom::Mel), sc.cd(at, 1 << 30, Denom::Sym), sc.cd(at, s.1.coin_data.value.0 - (1 << 30), Denom::Sym)], b"s".to_vec());
+        sc.op_batch(&[t]);
+        sc.block_end(None);
+        out.push(sc);
+    }
+    // F4: long-form spelling (Mel, Erg) of the canonical Erg/Mel pool; (Sym, Sym)
+    {
+        let mut sc = base("d_f4", r, NetID::Custom02, 1000);
+        sc.block_end(None);
+        let at = sc.at();
+        let mut key = vec![0u8; 32]; key.extend_from_slice(&[1, 109, 1, 100]);
+        let m = sc.coin_of(Denom::Mel, 1 << 40).unwrap();
+        let t = sc.mk(r, TxKind::Swap, &[m], vec![sc.cd(at, 1 << 30, Denom::Mel)], key.clone());
+        sc.dict.pool(PoolKey::from_bytes(&key).unwrap());
+        sc.op_batch(&[t]);
+        sc.block_end(None);
+        let mut key2 = vec![0u8; 32]; key2.extend_from_slice(&[1, 115, 1, 115]);
+        let m = sc.coin_of(Denom::Mel, 1 << 40).unwrap();
+        let s = sc.coin_of(Denom::Sym, 1 << 30).unwrap();
+        let t = sc.mk(r, TxKind::LiqDeposit, &[m, s.clone()], vec![sc.cd(at, 1000, Denom::Sym), sc.cd(at, 1000, Denom::Sym), sc.cd(at, s.1.coin_data.value.0 - 2000, Denom::Sym)], key2);
+        sc.op_batch(&[t]);
+        sc.block_end(None);
+        out.push(sc);
+    }
+    // F5: zero-valued swap request
+    {
+        let mut sc = base("d_f5", r, NetID::Custom02, 1000);
+        sc.block_end(None);
+        let at = sc.at();
+        let m = sc.coin_of(Denom::Mel, 1 << 40).unwrap();
+        let t = sc.mk(r, TxKind::Swap, &[m], vec![sc.cd(at, 0, Denom::Mel)], b"s".to_vec());
+        sc.op_batch(&[t]);
+        sc.op_seal(None);
+        out.push(sc);
+    }
+    // F7 / F6: two small deposits into a new pool; withdraw everything; swap against the emptied pool
+    {
+        let mut sc = base("d_f7", r, NetID::Custom02, 1000);
+        let at = sc.at();
+        let m = sc.coin_of(Denom::Mel, 1 << 40).unwrap();
+        let t0 = sc.mk(r, TxKind::Normal, &[m], vec![sc.cd(at, 500, Denom::NewCustom), sc.cd(at, 500, Denom::NewCustom)], vec![]);
+        let tok = Denom::Custom(t0.hash_nosigs());
+        sc.op_batch(&[t0.clone()]);
+        sc.block_end(None);
+        let key = PoolKey::new(Denom::Mel, tok);
+        sc.dict.pool(key);
+        let mut deps = vec![];
+        for i in 0..2u8 {
+            let m = sc.wallet().coins.into_iter().filter(|(_, c)| c.coin_data.denom == Denom::Mel && c.coin_data.covhash == at && c.coin_data.value.0 >= 1 << 40).nth(i as usize).unwrap();
+            let c = (CoinID::new(t0.hash_nosigs(), i), CoinDataHeight { coin_data: sc.cd(at, 500, tok), height: BlockHeight(0) });
+            let (l, rr) = if key.left() == Denom::Mel { (sc.cd(at, 4, Denom::Mel), sc.cd(at, 4, tok)) } else { (sc.cd(at, 4, tok), sc.cd(at, 4, Denom::Mel)) };
+            deps.push(sc.mk(r, TxKind::LiqDeposit, &[m, c], vec![l, rr, sc.cd(at, 496, tok)], key.to_bytes().to_vec()));
+        }
+        sc.op_batch(&deps);
+        sc.block_end(None);
+        // withdraw all liquidity tokens held, each in its own transaction
+        let liq = key.liq_token_denom();
+        let mut ws = vec![];
+        let holders: Vec<(CoinID, CoinDataHeight)> = sc.wallet().coins.into_iter().filter(|(_, c)| c.coin_data.denom == liq).collect();
+        let mels: Vec<(CoinID, CoinDataHeight)> = sc.wallet().coins.into_iter().filter(|(_, c)| c.coin_data.denom == Denom::Mel && c.coin_data.covhash == at && c.coin_data.value.0 >= 1 << 40).collect();
+        for (i, h) in holders.iter().enumerate() {
+            let mut t = Transaction::new(TxKind::LiqWithdraw);
+            t.outputs = vec![sc.cd(at, h.1.coin_data.value.0, liq)];
+            t.data = key.to_bytes();
+            let mut t = sc.finish_tx(r, t, &[mels[i].clone(), h.clone()], 0, 0);
+            if t.outputs.len() > 1 { let ch = t.outputs.pop().unwrap(); t.fee = CoinValue(t.fee.0 + ch.value.0); }
+            ws.push(t);
+        }
+        sc.op_batch(&ws);
+        if sc.block_end(None) {
+            // F6: swap against the emptied pool
+            if let Some(m) = sc.coin_of(Denom::Mel, 1 << 30) {
+                let t = sc.mk(r, TxKind::Swap, &[m], vec![sc.cd(at, 1000, Denom::Mel)], key.to_bytes().to_vec());
+                sc.op_batch(&[t]);
+                sc.op_seal(None);
+            }
+        }
+        out.push(sc);
+    }
+    // F8: DoscMint with an empty proof / difficulty 0 / difficulty 70
+    for (i, (diff, proof)) in [(1u32, vec![]), (0u32, vec![0u8; 40]), (70u32, vec![0u8; 40])].iter().enumerate() {
+        let mut sc = base(&format!("d_f8_{}", i), r, NetID::Custom02, 1000);
+        sc.block_end(None);
+        let at = sc.at();
+        let m = sc.coin_of(Denom::Mel, 1 << 40).unwrap();
+        let t = sc.mk(r, TxKind::DoscMint, &[m], vec![sc.cd(at, 5, Denom::Erg)], stdcode::serialize(&(*diff, proof.clone())).unwrap());
+        sc.op_batch(&[t]);
+        out.push(sc);
+    }
+    // F9: 255 outputs of 2^120 plus a fee of 2^120
+    {
+        let mut sc = base("d_f9", r, NetID::Custom02, 1000);
+        sc.block_end(None);
+        let at = sc.at();
+        let m = sc.coin_of(Denom::Mel, 1 << 40).unwrap();
+        let mut t = Transaction::new(TxKind::Normal);
+        t.inputs = vec![m.0];
+        t.outputs = vec![sc.cd(at, 1 << 120, Denom::Mel); 255];
+        t.fee = CoinValue(1 << 120);
+        t.covenants = vec![Bytes::from(Covenant::always_true().to_bytes().to_vec())];
+        sc.op_batch(&[t]);
+        out.push(sc);
+    }
+    // F11: fee multiplier edges
+    for (i, (mult, d)) in [(1u128, -128i8), (0, -64), ((1u128 << 63) + 4096, -128), (1u128 << 70, 127), (1u128 << 70, -127), (300, -128), (255, 127), (2, -128)].iter().enumerate() {
+        let mut sc = Scenario::new(&format!("d_f11_{}", i), r, NetID::Custom02, *mult, 1 << 20);
+        let a = act(&sc, *d);
+        sc.op_seal(a);
+        out.push(sc);
+    }
+    // F15: an index-bound covenant on two coins spent in one transaction
+    {
+        let mut sc = base("d_f15", r, NetID::Custom02, 1000);
+        let iz = sc.addr_of(|k| matches!(k, CovKind::IndexZero));
+        let at = sc.at();
+        let mut f = Transaction::new(TxKind::Faucet);
+        f.outputs = vec![sc.cd(iz, 1 << 40, Denom::Mel), sc.cd(iz, 1 << 40, Denom::Mel)];
+        let f = sc.finish_tx(r, f, &[], 0, 0);
+        sc.op_batch(&[f.clone()]);
+        sc.block_end(None);
+        let ins: Vec<(CoinID, CoinDataHeight)> = (0..2u8).map(|i| (CoinID::new(f.hash_nosigs(), i), CoinDataHeight { coin_data: f.outputs[i as usize].clone(), height: BlockHeight(0) })).collect();
+        let t = sc.mk(r, TxKind::Normal, &ins, vec![sc.cd(at, 1 << 40, Denom::Mel)], vec![]);
+        sc.op_batch(&[t]);
+        out.push(sc);
+    }
+    // F23: two covenants whose weights saturate u128
+    {
+        let mut sc = base("d_f23", r, NetID::Custom02, 1);
+        sc.block_end(None);
+        let at = sc.at();
+        let m = sc.coin_of(Denom::Mel, 1 << 40).unwrap();
+        let mut heavy: Vec<OpCode> = (0..9).map(|i| OpCode::Loop(65535, (9 - i) as u16)).collect();
+        heavy.push(OpCode::Noop);
+        let hb = Covenant::from_ops(&heavy).to_bytes();
+        let mut heavy2 = heavy.clone(); heavy2.push(OpCode::Noop);
+        let hb2 = Covenant::from_ops(&heavy2).to_bytes();
+        let mut t = sc.mk(r, TxKind::Normal, &[m], vec![sc.cd(at, 1 << 30, Denom::Mel)], vec![]);
+        t.covenants.push(hb); t.covenants.push(hb2);
+        sc.op_batch(&[t]);
+        out.push(sc);
+    }
+    // F24: the pool named by empty data (NewCustom/Mel)
+    {
+        let mut sc = base("d_f24", r, NetID::Custom02, 1000);
+        sc.block_end(None);
+        let at = sc.at();
+        sc.dict.pool(PoolKey::from_bytes(b"").unwrap());
+        let ms: Vec<(CoinID, CoinDataHeight)> = sc.wallet().coins.into_iter().filter(|(_, c)| c.coin_data.denom == Denom::Mel && c.coin_data.covhash == at && c.coin_data.value.0 >= 1 << 40).collect();
+        let t = sc.mk(r, TxKind::LiqDeposit, &[ms[0].clone()], vec![sc.cd(at, 1000, Denom::NewCustom), sc.cd(at, 1 << 30, Denom::Mel)], vec![]);
+        sc.op_batch(&[t]);
+        if sc.block_end(None) {
+            let ms: Vec<(CoinID, CoinDataHeight)> = sc.wallet().coins.into_iter().filter(|(_, c)| c.coin_data.denom == Denom::Mel && c.coin_data.covhash == at && c.coin_data.value.0 >= 1 << 40).collect();
+            let t = sc.mk(r, TxKind::Swap, &[ms[0].clone()], vec![sc.cd(at, 1 << 60, Denom::NewCustom)], vec![]);
+            sc.op_batch(&[t]);
+            sc.block_end(None);
+        }
+        out.push(sc);
+    }
+    // F25: a pool created with an empty side, then a second deposit
+    {
+        let mut sc = base("d_f25", r, NetID::Custom02, 1000);
+        sc.block_end(None);
+        let at = sc.at();
+        for _ in 0..2 {
+            let m = sc.coin_of(Denom::Mel, 1 << 40);
+            let s = sc.coin_of(Denom::Sym, 100);
+            if let (Some(m), Some(s)) = (m, s) {
+                let mut key = vec![0u8; 32]; key.extend_from_slice(&stdcode::serialize(&(Denom::Erg, Denom::Sym)).unwrap());
+                let e = sc.coin_of(Denom::Erg, 100).unwrap();
+                let t = sc.mk(r, TxKind::LiqDeposit, &[m, e.clone(), s.clone()], vec![sc.cd(at, 5, Denom::Erg), sc.cd(at, 0, Denom::Sym), sc.cd(at, e.1.coin_data.value.0 - 5, Denom::Erg), sc.cd(at, s.1.coin_data.value.0, Denom::Sym)], key);
+                sc.op_batch(&[t]);
+                if !sc.block_end(None) { break; }
+            }
+        }
+        out.push(sc);
+    }
+    out
 }
